@@ -255,22 +255,7 @@ pub struct UnsafeCase {
     pub ops: Vec<TOp>,
 }
 
-fn unsafe_path_types() -> Vec<Ty> {
-    use Ty::*;
-    let a = |t: Ty| std::sync::Arc::new(t);
-    let mut v: std::vec::Vec<Ty> = std::vec::Vec::new();
-    for e in [U8, U32, Str, Vec(a(U16)), Option(a(Box(a(U64)))), I8, Bool, Unit] {
-        for n in [0usize, 1, 3, 16, 17, 33] {
-            v.push(Array(a(e.clone()), n));
-        }
-        v.push(Vec(a(e.clone())));
-    }
-    v.push(Vec(a(Array(a(U8), 3))));
-    v.push(Tuple(vec![Array(a(U8), 17), U32, Array(a(Str), 3)]));
-    v.push(Bytes);
-    v.push(BigInt);
-    v
-}
+use vmodel::typelists::unsafe_path_types;
 
 fn unsafe_case_strategy() -> BoxedStrategy<UnsafeCase> {
     let cfg = ValCfg { max_len: 6, long: false, ..ValCfg::default() };
